@@ -235,8 +235,9 @@ func TestC16(t *testing.T) {
 		if err != nil {
 			t.Fatal(err)
 		}
-		for _, src := range []string{"parsed", "arena", "proto-roundtrip", "built", "built-signed-data-size-unset"} {
+		for _, src := range []string{"parsed", "arena", "proto-roundtrip", "built", "built-signed-data-size-unset", "chain-END-NUL-without-line-break", "chain-with-4th-block-and-NUL", "short-report-data-option"} {
 			var q *pb.QuoteV4
+			refused := false // the construction is one the checks (some of them) are expected to refuse: only the memory is compared
 			extra := map[string][]byte{}
 			switch src {
 			case "parsed":
@@ -257,6 +258,24 @@ func TestC16(t *testing.T) {
 				if err := proto.Unmarshal(b, q); err != nil {
 					t.Fatal(err)
 				}
+			case "chain-END-NUL-without-line-break", "chain-with-4th-block-and-NUL":
+				// inputs the checks REFUSE are not written to either: a chain whose last END line is followed directly by the
+				// NUL terminator / by more bytes ending in NUL (sizes adjusted so that the structure stays valid)
+				q = proto.Clone(w.Quote).(*pb.QuoteV4)
+				pc := q.SignedData.CertificationData.QeReportCertificationData.PckCertificateChainData
+				chain := bytes.TrimRight(pc.PckCertChain, "\x00\n")
+				if src == "chain-with-4th-block-and-NUL" {
+					chain = append(append(append([]byte{}, chain...), '\n'), chain[bytes.LastIndex(chain, []byte("-----BEGIN")):]...)
+				}
+				chain = append(append(make([]byte, 0, len(chain)+40), chain...), 0)
+				delta := uint32(len(chain)) - pc.Size
+				pc.PckCertChain, pc.Size = chain, uint32(len(chain))
+				q.SignedData.CertificationData.Size += delta
+				q.SignedDataSize += delta
+				refused = true
+			case "short-report-data-option":
+				q = proto.Clone(w.Quote).(*pb.QuoteV4)
+				refused = true
 			case "built-signed-data-size-unset":
 				// a message assembled field by field with the redundant size left at its zero value (no check relates it to
 				// the data, O-1): the serialiser computes the size — into its output, not into the caller's message
@@ -266,6 +285,14 @@ func TestC16(t *testing.T) {
 				q = proto.Clone(w.Quote).(*pb.QuoteV4)
 			}
 			vo, optExtra := valOptions(q, 40)
+			if src == "short-report-data-option" {
+				// an expectation shorter than the field (a 32-byte nonce for the 64-byte REPORT_DATA), cut from a longer buffer: the
+				// bytes behind it are the caller's too
+				buf := append(make([]byte, 0, 96), q.TdQuoteBody.ReportData...)
+				buf = append(buf, bytes.Repeat([]byte{sentinel}, 32)...)
+				vo.TdQuoteBodyOptions.ReportData = buf[:32]
+				optExtra["opt.report_data(short)"] = buf[:32]
+			}
 			for k, v := range optExtra {
 				extra[k] = v
 			}
@@ -282,7 +309,7 @@ func TestC16(t *testing.T) {
 					obs, fail = "dirty:"+dirty, fmt.Sprintf("%s wrote to memory reachable from %s (quote built as %q, QE auth data %d bytes)", e.name, dirty, src, authLen)
 				} else if !proto.Equal(q, ref) {
 					obs, fail = "changed", e.name+" changed the message"
-				} else if verdictS != "ok" {
+				} else if verdictS != "ok" && !refused {
 					fail = e.name + " rejected an honest quote: generator problem"
 				}
 				key := q.SignedData.EcdsaAttestationKey
